@@ -1,4 +1,5 @@
 #!/bin/bash
+export VERIF_EVIDENCE_DIR=${VERIF_EVIDENCE_DIR:-/verif/replays/evidence-changed-tree}
 # tools/seeded_matrix.sh [id ...] : apply each seeded change to /repo, run the checks listed in its meta.json, undo it.
 # One line per (change, check); feed the log to tools/gen_seeded_readme.py.  /repo must be clean; it is restored after every change.
 cd /verif
